@@ -270,11 +270,9 @@ def exported(name):
 
 
 def es(t):
-    """TFlagExtraStar as llgo computes it (used only for the cycle cut marker; the model recomputes it)"""
+    """TFlagExtraStar as llgo computes it: unnamed pointer types with an odd number of stars; never a defined type"""
     if t[0] == "ptr":
         return not es(t[1])
-    if t[0] == "named" and t[1] is not None:
-        return es(underlying(t))
     return False
 
 
@@ -364,18 +362,19 @@ def str_features(t):
 
     def f(n, in_targ):
         k = n[0]
-        if k == "named" and n[1] is not None and es(n):
-            feats.add("reflect-string-named-pointer-extra-star")
-        if k == "struct" and any(fl[2] for fl in n[1]) and not in_targ:
-            feats.add("reflect-string-struct-tag-dropped")
-        if k == "map" and es(n[1]):
-            feats.add("reflect-string-map-pointer-key-star-dropped")
-        if k == "chan" and n[1] == "both" and n[2][0] == "chan" and n[2][1] == "recv" and not in_targ:
-            feats.add("reflect-string-chan-of-recv-chan-parens")
-        if in_targ and k == "named" and n[1] == "main":
-            feats.add("reflect-string-typearg-main-pkgpath")
         if in_targ and k in ("struct", "func", "iface"):
             feats.add("reflect-string-typearg-literal-fallback")
+        # shapes that used to print wrongly (kept as coverage classes)
+        if k == "named" and n[1] is not None and underlying(n)[0] == "ptr":
+            feats.add("shape:defined-pointer-type")
+        if k == "struct" and any(fl[2] for fl in n[1]):
+            feats.add("shape:struct-tag")
+        if k == "map" and es(n[1]):
+            feats.add("shape:pointer-map-key")
+        if k == "chan" and n[1] == "both" and n[2][0] == "chan" and n[2][1] == "recv":
+            feats.add("shape:chan-of-recv-chan")
+        if in_targ and k == "named" and n[1] == "main":
+            feats.add("shape:typearg-of-package-main")
     walk(t, f)
     return feats
 
